@@ -63,3 +63,23 @@ package chpool
 //@ contract (p *Pool) Ping(ctx) (err) props(C11)
 //@   requires ctx != nil && p != nil && p.pool != nil
 //@   modifies all(p.pool), all(ctx)
+
+// ---------------------------------------------------------------------------
+// C11: the health check.  Every idle resource it takes is given back exactly once (each of
+// Destroy / ReleaseUnused needs the resource acquired and ends that), a resource is destroyed
+// exactly when it is too old or was idle for too long, and a kept one is returned with
+// ReleaseUnused - never with Release, which would count the check as a use and restart the idle
+// clock (so that MaxConnIdleTime could never take effect).
+//@ contract (p *Pool) checkIdleConnsHealth() props(C11)
+//@   requires p != nil && p.pool != nil
+//@   modifies all(p.pool)
+//@ nocall puddle/v2.(*Resource).Release
+//@ callsite puddle/v2.(*Resource).Destroy#1
+//@   assert res.acquired && (inI64(nanos(now) - (res.csec * 1000000000 + res.cnsec)) ==> nanos(now) - (res.csec * 1000000000 + res.cnsec) > p.options.MaxConnLifetime) {destroyed-because-older-than-MaxConnLifetime}
+//@ callsite puddle/v2.(*Resource).Destroy#2
+//@   assert res.acquired && res.idle > p.options.MaxConnIdleTime {destroyed-because-idle-longer-than-MaxConnIdleTime}
+//@ callsite puddle/v2.(*Resource).ReleaseUnused
+//@   assert res.acquired && res.idle <= p.options.MaxConnIdleTime && (inI64(nanos(now) - (res.csec * 1000000000 + res.cnsec)) ==> nanos(now) - (res.csec * 1000000000 + res.cnsec) <= p.options.MaxConnLifetime) {kept-only-if-young-and-recently-used}
+//@ loop 0 (rangeindex)
+//@   modifies all(p.pool)
+//@   invariant -1 <= rangeindex && rangeindex < len(resources)
